@@ -69,6 +69,11 @@ SCENARIOS = [
     ("loop-variable-is-one-variable-per-loop",
      'var fs = []; for i in 0..3 { var j = i; fs.push(|| j); } for f in fs { print(f()); }',
      ["0", "1", "2"]),
+    ("extreme-range-bounds",
+     'var n = 0; for x in -9223372036854775808..9223372036854775807 { n = n + 1; if n == 3 { break; } } print(n);\n'
+     'var m = 0; for x in 9223372036854775807..-9223372036854775808 { m = m + 1; if m == 3 { break; } } print(m);\n'
+     'for x in 9007199254740990..9007199254740992 { print(x); } for x in -9007199254740990..-9007199254740992 { print(x); }',
+     ["3", "3", "9007199254740990", "9007199254740991", "-9007199254740990", "-9007199254740991"]),
     ("iterating-a-non-iterable-is-an-error",
      'try { for x in 5 { print("no"); } } catch e { print(type(e) == AttributeError); }\ntry { for x in nil { print("no"); } } catch e { print(type(e) == AttributeError); }',
      ["true", "true"]),
